@@ -644,6 +644,18 @@ benign(
 )
 B.append({"id": "benign/c16-buffered-pool-signing", "prop": "C16", "edits": [e for b in B if b["id"] == "benign/c01-buffered-pool-fork-safe" for e in b["edits"]], "runs": 800, "benign": True})
 assert len(B[-1]["edits"]) == 1
+B.append(
+    {
+        "id": "benign/c19-fdopen-0600",
+        "prop": "C19",
+        "edits": [
+            ("bits/p2p.py", '    dat_file = open(filepath, "ab")\n    for blk in blocks:\n', '    dat_file = os.fdopen(os.open(filepath, os.O_WRONLY | os.O_CREAT | os.O_APPEND, 0o600), "ab")\n    for blk in blocks:\n'),
+            ("bits/p2p.py", '            dat_file = open(filepath, "ab")\n            dat_file.write(blk_data)\n', '            dat_file = os.fdopen(os.open(filepath, os.O_WRONLY | os.O_CREAT | os.O_APPEND, 0o600), "ab")\n            dat_file.write(blk_data)\n'),
+        ],
+        "runs": 6000,
+        "benign": True,
+    }
+)
 benign(
     "c03-buffered-pool",
     "C03",
